@@ -145,8 +145,14 @@ def run(ck: Check):
         jobs.append({"src": G.render_source(m), "name": f"gm_{ck.seed}_{k}", "root": m["root"], "instances": insts, "cases": cases,
                      "model": m})
     out = []
-    for i in range(0, len(jobs), 20):
-        out += run_impl("impl_binding.py", jobs[i:i + 20], timeout=1800)
+    wire = [{"oracle": True, "src": j["src"], "name": j["name"], "instances": j["instances"], "cases": j["cases"]} for j in jobs]
+    chunks = [wire[i::8] for i in range(8)]
+    with cf.ThreadPoolExecutor(max_workers=8) as ex:
+        parts = list(ex.map(lambda c: run_impl("impl_c09.py", {"jobs": c}, timeout=1800)["jobs"] if c else [], chunks))
+    out = [None] * len(wire)
+    for k, part in enumerate(parts):
+        for idx, o in zip(range(k, len(wire), 8), part):
+            out[idx] = o
     n = 0
     stats = {}
     for job, o in zip(jobs, out):
